@@ -40,19 +40,19 @@ CHECKS = {
             "exploration",
             "model-based stateful property testing (RuleBasedStateMachine) against a list-of-lists tree model, plus complete enumeration of short edit sequences",
             "Random DOM edit histories (<= 40 steps: append/insert/insertBefore/After/replaceChild/removeChild/pop/item assignment/extend/fragments/normalize/cloneNode/attribute-held nodes, indices -len-1..len+1) and every sequence of length <= 3 (quick; <= 4 thorough) over a small pool are applied to plasTeX.DOM and to the model; after every step child order, parent links, ownerDocument, siblings, first/last child, textContent, getElementsByTagName, compareDocumentPosition, clone disjointness and normalize idempotence are compared over every live node. Exploration; enumeration complete for its bound.",
-            "Trusted: models/dommodel.py (Python list semantics, fragment = splice); the two documented parent conventions for fragment children. Deviation from the design: length-5 enumeration is infeasible (branching 60-240), bounds are 3/4.",
+            "Trusted: models/dommodel.py (Python list semantics, fragment = splice); the two documented parent conventions for fragment children; a node that no container lists names no parent; getElementsByTagName is called with single names, lists and tuples. Deviation from the design: length-5 enumeration is infeasible (branching 60-240), bounds are 3/4.",
             "DESIGN.md C06"),
     "C07": ("hypothesis",
             "exploration",
             "property-based testing over a generated LaTeX document grammar with unique marker words; oracle = predictions computed from the generated AST (marker order, tree well-formedness predicates, charsub rules)",
             "Generated article/book/report documents (sectioning, paragraphs, fonts, lists, tabulars, floats, math, verbatim, theorems, footnotes, labels) are parsed; a depth-first walk (arguments before children) must meet every marker exactly once in source order, every node exactly once with a parent chain through its actual containers, sectioning units must nest by level, paragraphs never nest, and quote/dash substitutions appear in running text and never in verbatim or mathematics. Exploration.",
-            "Trusted: models/latexdoc.py (AST -> source + predictions, no plasTeX import). Parent-chain oracle (2) is reached only by a two-site mutant (single-site ones are equivalent: parent links are set redundantly).",
+            "Trusted: models/latexdoc.py (AST -> source + predictions, no plasTeX import). Clause (5): after the documented read-only accessors (title, tocEntry, fullTitle, fullTocEntry, ref, id, captionName, textContent) have been read on every element the tree predicates must still hold. Parent-chain oracle (2) is reached only by a two-site mutant (single-site ones are equivalent: parent links are set redundantly).",
             "DESIGN.md C07"),
     "C08": ("hypothesis+exhaustive",
             "exploration",
             "property-based testing against a LaTeX counter machine run over the generated AST; exhaustive comparison of number representations with a table-driven converter",
             "Generated documents mixing numbered constructs, \\setcounter/\\addtocounter/\\stepcounter, theorem declarations, \\appendix, secnumdepth: node.ref text of every numbered node, enumerate item positions and final counter values must equal the model's. roman/Roman/arabic for 1..4999 and alph/Alph for 1..26 are compared exhaustively (also through a parsed document). Exploration; the representation sub-run is complete.",
-            "Trusted: models/latexdoc.py counter machine (LaTeX2e rules per class). Known finding listed: \\item[x] in enumerate steps the counter (excluded by construction). Units beyond secnumdepth are surveyed, not asserted.",
+            "Trusted: models/latexdoc.py counter machine (LaTeX2e rules per class). A second stream narrows the grammar to headings, equation/eqnarray rows (with \\nonumber) and counter commands; counters may be declared within others, in the preamble or in the body. Known finding listed: \\item[x] in enumerate steps the counter (excluded by construction). Units beyond secnumdepth are surveyed, not asserted.",
             "DESIGN.md C08"),
     "C09": ("hypothesis",
             "exploration",
@@ -88,7 +88,7 @@ CHECKS = {
             "exploration",
             "property-based testing against a layered-dictionary model through the real client entry point; complete option x source grid",
             "Every option of every section (59 options, 9 sections, enumerated from the live config incl. html5) x type-appropriate values x layerings of 0-3 generated INI files and an argv, run through plasTeX.client.main with run() stubbed; stored value and interpolated read-back compared with models/cfgmodel.py. The grid option x {default, file, file2-over-file1, argv, file+argv} x value samples (1147 cells) is enumerated completely. Exploration; the grid is complete.",
-            "Trusted: models/cfgmodel.py; documented defaults are read from the live config as data.",
+            "Trusted: models/cfgmodel.py; documented defaults are read from the live config as data. Every option is read back through section[key] and section.get(key), after the last layer and (stream stepwise) after every layer.",
             "DESIGN.md C16"),
     "C18": ("hypothesis",
             "exploration",
@@ -106,7 +106,7 @@ CHECKS = {
             "fault_enumeration",
             "fault injection: every truncation point and every single-bit flip of saved .paux files, generated multi-byte corruptions and foreign files, save/corrupt/restore histories; round-trip oracle",
             "Label sets rendered under the real HTML5/XHTML renderers; round trip (same number/title/id/url per renderer); for every saved file every prefix, every single-bit flip (files <= 450 B), generated splices/opcode-aware edits/foreign pickles: restore never raises, yields a subset of the saved labels unchanged, the following persist does not raise and leaves a loadable complete file that round-trips; state-machine histories over two renderers. ~100k faults per quick run.",
-            "Trusted: models/pauxmodel.py; corrupted pickles are loaded only under resource limits; adversarial pickles are out of scope (statement: interrupted writes and bit rot).",
+            "Trusted: models/pauxmodel.py; the round trip also covers renderers named by package path, a second render of the same document object, several directories, and a document whose own label is named like a restored one; corrupted pickles are loaded only under resource limits; adversarial pickles are out of scope (statement: interrupted writes and bit rot).",
             "DESIGN.md C20"),
 
     "C11": ("hypothesis+atheris",
@@ -123,11 +123,11 @@ CHECKS = {
             "Trusted: models/texnum.py (tex.web 102-107, 404-462 in integer/Fraction arithmetic); em/ex estimates and register defaults read from plasTeX as data. Seven known findings listed (number look-ahead executes the next token, \\value as digits, integer registers as coefficients, macro-produced keywords, 'fil l'), excluded by construction.",
             "DESIGN.md C05"),
 
-    "C02": ("hypothesis",
+    "C02": ("hypothesis+exhaustive",
             "exploration",
-            "differential property testing: generated macro programs evaluated by plasTeX and by an independent mini-TeX expander (reference model)",
-            "Grammar-built, recursion-free programs (\\def/\\gdef with 0-9 delimited/undelimited parameters, ## nesting, \\newcommand/\\renewcommand with optional arguments, \\let, \\csname, \\expandafter, groups) inside the stated normal form: the visible text (whitespace removed) must equal the output of models/minitex.py on the same source, and the context depth must be restored. Exploration.",
-            "Trusted: models/minitex.py (own lexer + tex.web 391-399 parameter matching, save stack), self-tested on TeXbook examples. Normal form of DESIGN.md C02. Known finding listed: character \\let aliases are resolved by the tokenizer (excluded by construction).",
+            "differential property testing: generated macro programs, and a complete product of boundary parameter texts x arguments x uses, evaluated by plasTeX and by an independent mini-TeX expander (reference model)",
+            "Grammar-built, recursion-free programs (\\def/\\gdef with 0-9 delimited/undelimited parameters, ## nesting, \\newcommand/\\renewcommand with optional arguments, \\let, \\csname, \\expandafter, groups) inside the stated normal form: the visible text (whitespace removed) must equal the output of models/minitex.py on the same source, and the context depth must be restored. A second stream enumerates 10 parameter texts x 14 boundary arguments ({} , {{}}, empty, groups around/before/after tokens) x 9 uses completely. Exploration.",
+            "Trusted: models/minitex.py (own lexer + tex.web 391-399 parameter matching, save stack), self-tested on TeXbook examples. Normal form of DESIGN.md C02. Known findings listed: character \\let aliases are resolved by the tokenizer (excluded by construction); brace characters inside \\csname raise (combinations counted, not judged).",
             "DESIGN.md C02"),
     "C03": ("hypothesis",
             "exploration",
